@@ -12,6 +12,7 @@ LEAN_HELPERS = ['MV.Lemmas.Project', 'MV.Lemmas.ProjectDen', 'MV.Lemmas.ProjectR
                 'MV.Model.Render', 'MV.Model.Pitch', 'MV.Model.Rel', 'MV.Model.Basic']
 DRIVERS = ['C13']
 GEN = ['Tables', 'Library']
+SRC_TIE = ['SrcSlice']   # py2lean source image of get_melody_between proved equal to the model (MV/Props/TieSlice.lean)
 RULE = ('source x target scores: 1-4 chords each, independent chord boundaries (duration families with denominators '
         '1,2,4,8 / 3,6,12 / 5,10 / 7), sources shorter, equal and longer than the target, 1-3 parts, parts absent from '
         'some chords, rests and continuations anywhere, all note systems incl. relative notes, accidentals, per-note '
@@ -245,6 +246,9 @@ def correspondence(ctx):
     ctx.compare('onechord', 'C13', cases)
     ctx.compare('offset', 'C13', cases2)
     ctx.compare('renotate', 'C13', cases3)
+    # kernel-level streams of the source tie (DESIGN §9.6)
+    import srctie
+    srctie.run(ctx, SRC_TIE)
 
 
 # ----------------------------------------------------------------------------- the property, on the real objects
